@@ -4,6 +4,7 @@ import (
 	"fmt"
 	"go/token"
 	"go/types"
+	"reflect"
 	"sort"
 	"strings"
 
@@ -570,6 +571,232 @@ func runX7(p *an.Prog, r *an.Result) {
 		})
 	}
 	r.Floor("container wrapper constructions", 4)
+	x7Bare(p, r)
+}
+
+// x7Bare: the generic wrapper on its own (without a container or string wrapper around it) has
+// none of the string, array, map or struct behaviour - contains, size, indexing. It may become a Value
+// only around nil, a boolean or a number: as an interned constant of those kinds, or in ValueOf on the
+// arm that is left when the kind is none of Ptr, String, Array, Slice, Map, Struct. And the nil value
+// stands only for nil itself and for a nil pointer - an empty or nil slice or map is a collection.
+func x7Bare(p *an.Prog, r *an.Result) {
+	vo := p.Func("values.ValueOf")
+	if vo == nil {
+		r.Bad("-", "ValueOf not found", token.NoPos, "anchor not resolved")
+		return
+	}
+	isBare := func(t types.Type) bool {
+		n := an.NamedOf(t)
+		return n != nil && an.IsModulePkg(n.Obj().Pkg()) && an.RelPkg(n.Obj().Pkg().Path()) == "values" && n.Obj().Name() == "wrapperValue"
+	}
+	// the value a wrapperValue literal wraps
+	wrapped := func(al *ssa.Alloc) []ssa.Value {
+		var out []ssa.Value
+		if al.Referrers() == nil {
+			return nil
+		}
+		for _, u := range *al.Referrers() {
+			if fa, ok := u.(*ssa.FieldAddr); ok && fieldName(fa) == "value" {
+				out = append(out, an.Stores(fa)...)
+			}
+		}
+		return out
+	}
+	scalarConst := func(v ssa.Value) bool {
+		for {
+			mi, ok := v.(*ssa.MakeInterface)
+			if !ok {
+				break
+			}
+			v = mi.X
+		}
+		c, ok := v.(*ssa.Const)
+		if !ok {
+			return false
+		}
+		if c.Value == nil {
+			return true // nil
+		}
+		b, ok := c.Type().Underlying().(*types.Basic)
+		return ok && b.Info()&(types.IsBoolean|types.IsNumeric) != 0
+	}
+	containerKinds := []int64{17, 21, 22, 23, 24, 25} // Array, Map, Ptr, Slice, String, Struct
+	for _, fn := range p.Funcs {
+		if isMainPkg(fn) || fn.Pkg == nil {
+			continue
+		}
+		an.EachInstr(fn, func(in ssa.Instruction) {
+			mi, ok := in.(*ssa.MakeInterface)
+			if !ok || !isBare(mi.X.Type()) {
+				return
+			}
+			name := an.FuncName(fn)
+			for _, o := range an.Origins(mi.X, an.StepValue) {
+				r.Counts["bare wrappers becoming values"]++
+				switch x := o.(type) {
+				case *ssa.UnOp:
+					if g, ok := x.X.(*ssa.Global); ok && x.Op == token.MUL {
+						// an interned value: what the initialiser wraps
+						good, n := true, 0
+						for _, f := range p.Funcs {
+							an.EachInstr(f, func(in2 ssa.Instruction) {
+								st, ok := in2.(*ssa.Store)
+								if !ok {
+									return
+								}
+								var vals []ssa.Value
+								if st.Addr == ssa.Value(g) {
+									for _, oo := range an.Origins(st.Val, an.StepValue) {
+										if ld, ok := oo.(*ssa.UnOp); ok {
+											if al, ok := ld.X.(*ssa.Alloc); ok {
+												vals = append(vals, wrapped(al)...)
+												continue
+											}
+										}
+										good = false
+									}
+								} else if fa, ok := st.Addr.(*ssa.FieldAddr); ok && fa.X == ssa.Value(g) && fieldName(fa) == "value" {
+									vals = append(vals, st.Val)
+								} else {
+									return
+								}
+								for _, v := range vals {
+									n++
+									if !scalarConst(v) {
+										good = false
+									}
+								}
+							})
+						}
+						if good && n > 0 {
+							r.OK(name, "interned "+g.Name()+" as a value", an.InstrPos(mi), "wraps nil, a boolean or a number")
+						} else {
+							r.Bad(name, "interned "+g.Name()+" as a value", an.InstrPos(mi), "a bare wrapperValue is interned around something that is not nil, a boolean or a number: it lacks the string/collection behaviour (contains, size, indexing) of the wrapper ValueOf gives that kind")
+						}
+						continue
+					}
+					if al, ok := x.X.(*ssa.Alloc); ok {
+						ws := wrapped(al)
+						allConst := len(ws) > 0
+						for _, w := range ws {
+							if !scalarConst(w) {
+								allConst = false
+							}
+						}
+						if allConst {
+							r.OK(name, "wrapperValue{constant} as a value", an.InstrPos(mi), "wraps nil, a boolean or a number")
+							continue
+						}
+						if fn != vo {
+							r.Bad(name, "bare wrapperValue built outside ValueOf", an.InstrPos(mi), "only ValueOf's kind dispatch knows that the wrapped value is a scalar")
+							continue
+						}
+						// in ValueOf: the arm left over by the kind dispatch
+						excluded := map[int64]bool{}
+						for _, gd := range an.GuardsAt(mi.Block()) {
+							b, ok := gd.Cond.(*ssa.BinOp)
+							if !ok || b.Op != token.EQL || gd.True {
+								continue
+							}
+							for _, pair := range [][2]ssa.Value{{b.X, b.Y}, {b.Y, b.X}} {
+								if isPkgType(pair[0].Type(), "reflect", "Kind") && kindOfWhole(pair[0], 0) {
+									if c, ok := an.ConstInt(pair[1]); ok {
+										excluded[c] = true
+									}
+								}
+							}
+						}
+						missing := ""
+						for _, k := range containerKinds {
+							if !excluded[k] {
+								missing += fmt.Sprintf(" %s", reflect.Kind(k))
+							}
+						}
+						if missing == "" {
+							r.OK(name, "bare wrapperValue on the arm no container kind takes", an.InstrPos(mi), "the kind is none of Array, Map, Ptr, Slice, String, Struct")
+						} else {
+							r.Bad(name, "bare wrapperValue where the kind may be"+missing, an.InstrPos(mi), "a value of that kind gets the generic wrapper, which has no contains/size/indexing behaviour")
+						}
+						continue
+					}
+					r.Bad(name, "bare wrapperValue of unknown origin", an.InstrPos(mi), "the rule follows a bare wrapper to an interned variable or a literal")
+				case *ssa.Field, *ssa.Parameter, *ssa.Call:
+					// the embedded wrapper of a container value used on its own (e.g. handed to a helper): not a construction
+					r.Counts["bare wrappers becoming values"]--
+				default:
+					r.Counts["bare wrappers becoming values"]--
+				}
+			}
+		})
+	}
+	// the nil value
+	var nilG *ssa.Global
+	if vo.Pkg != nil {
+		if g, ok := vo.Pkg.Members["nilValue"].(*ssa.Global); ok {
+			nilG = g
+		}
+	}
+	if nilG == nil {
+		r.Bad(an.FuncName(vo), "nilValue not found", an.FuncPos(vo), "anchor not resolved")
+		return
+	}
+	an.EachInstr(vo, func(in ssa.Instruction) {
+		ret, ok := in.(*ssa.Return)
+		if !ok {
+			return
+		}
+		for _, rv := range resultsOf(ret) {
+			for _, o := range an.Origins(rv, an.StepValue) {
+				ld, ok := o.(*ssa.UnOp)
+				if !ok || ld.X != ssa.Value(nilG) {
+					continue
+				}
+				r.Counts["nil value returns"]++
+				// where does this origin flow into the return: the block of the MakeInterface / phi edge
+				blk := ld.Block()
+				okNil := false
+				for _, gd := range an.GuardsAt(blk) {
+					if !gd.True {
+						continue
+					}
+					if b, ok := gd.Cond.(*ssa.BinOp); ok && b.Op == token.EQL {
+						for _, pair := range [][2]ssa.Value{{b.X, b.Y}, {b.Y, b.X}} {
+							if pair[0] == ssa.Value(vo.Params[0]) {
+								if c, ok := pair[1].(*ssa.Const); ok && c.Value == nil {
+									okNil = true // value == nil
+								}
+							}
+						}
+					}
+				}
+				ptrArm, isNil := false, false
+				for _, gd := range an.GuardsAt(blk) {
+					if !gd.True {
+						continue
+					}
+					if b, ok := gd.Cond.(*ssa.BinOp); ok && b.Op == token.EQL {
+						for _, pair := range [][2]ssa.Value{{b.X, b.Y}, {b.Y, b.X}} {
+							if isPkgType(pair[0].Type(), "reflect", "Kind") && kindOfWhole(pair[0], 0) {
+								if c, ok := an.ConstInt(pair[1]); ok && c == 22 {
+									ptrArm = true
+								}
+							}
+						}
+					}
+					if c := an.CallOf(gd.Cond); c != nil && an.CallName(c) == "(reflect.Value).IsNil" {
+						isNil = true
+					}
+				}
+				if okNil || ptrArm && isNil {
+					r.OK(an.FuncName(vo), "nil value for nil or a nil pointer", ld.Pos(), "")
+				} else {
+					r.Bad(an.FuncName(vo), "nil value for something that is not nil or a nil pointer", ld.Pos(), "ValueOf answers the nil value where the argument is neither nil nor (kind Ptr and IsNil): a nil slice or map is an empty collection, truthy and iterable, not nil")
+				}
+			}
+		}
+	})
+	r.Floor("bare wrappers becoming values", 5)
+	r.Floor("nil value returns", 2)
 }
 
 // ---------------------------------------------------------------------------
@@ -953,4 +1180,151 @@ func kindOfWhole(v ssa.Value, depth int) bool {
 		}
 	}
 	return false
+}
+
+// ---------------------------------------------------------------------------
+// X15
+
+func init() {
+	register("X15", "the order and the equality of two numbers are decided by relational operators on the two numbers themselves: in Equal, Less and what they call no result is computed by arithmetic on the operands (a difference overflows for operands far apart)", runX15)
+}
+
+func runX15(p *an.Prog, r *an.Result) {
+	done := map[*ssa.Function]bool{}
+	for _, root := range []string{"values.Less", "values.Equal"} {
+		fn := p.Func(root)
+		if fn == nil {
+			r.Bad("-", root+" not found", token.NoPos, "anchor not resolved")
+			continue
+		}
+		for _, f := range unitWithHelpers(p, fn) {
+			if done[f] {
+				continue
+			}
+			done[f] = true
+			name := an.FuncName(f)
+			an.EachInstr(f, func(in ssa.Instruction) {
+				b, ok := in.(*ssa.BinOp)
+				if !ok {
+					return
+				}
+				bt, ok := b.X.Type().Underlying().(*types.Basic)
+				if !ok || bt.Info()&types.IsNumeric == 0 {
+					return
+				}
+				operandNumber := func(v ssa.Value) bool {
+					return an.Reaches(v, an.StepValue, func(o ssa.Value) bool {
+						if c := an.CallOf(o); c != nil {
+							switch an.CallName(c) {
+							case "(reflect.Value).Int", "(reflect.Value).Uint", "(reflect.Value).Float":
+								return true
+							}
+						}
+						if ta, ok := o.(*ssa.TypeAssert); ok {
+							if tb, ok := ta.AssertedType.Underlying().(*types.Basic); ok && tb.Info()&types.IsNumeric != 0 {
+								return true
+							}
+						}
+						return false
+					})
+				}
+				if !operandNumber(b.X) && !operandNumber(b.Y) {
+					return
+				}
+				r.Counts["operations on operand numbers"]++
+				switch b.Op {
+				case token.LSS, token.LEQ, token.GTR, token.GEQ, token.EQL, token.NEQ:
+					r.OK(name, "operand numbers compared with "+b.Op.String(), an.InstrPos(in), "")
+				default:
+					r.Bad(name, "operand numbers combined with "+b.Op.String(), an.InstrPos(in), fmt.Sprintf("%s computes with the numbers it is to compare (%s): the result overflows or loses precision for operands far apart, and the comparison built on it is wrong for those", an.FuncName(f), b.Op))
+				}
+			})
+		}
+	}
+	r.Floor("operations on operand numbers", 2)
+}
+
+// ---------------------------------------------------------------------------
+// X16
+
+func init() {
+	register("X16", "in Equal, Less and what they call a signed number is converted to an unsigned type only where it has been found non-negative (a negative operand must not turn into a huge unsigned one), and no integer operand is reflect-converted to a fixed integer type of the other signedness", runX16)
+}
+
+func runX16(p *an.Prog, r *an.Result) {
+	pr := &prover{p: p, nn: &nonNeg{p: p, memo: map[*ssa.Function]int{}}}
+	isSigned := func(t types.Type) bool {
+		b, ok := t.Underlying().(*types.Basic)
+		return ok && b.Info()&types.IsInteger != 0 && b.Info()&types.IsUnsigned == 0
+	}
+	isUnsigned := func(t types.Type) bool {
+		b, ok := t.Underlying().(*types.Basic)
+		return ok && b.Info()&types.IsUnsigned != 0
+	}
+	done := map[*ssa.Function]bool{}
+	for _, root := range []string{"values.Less", "values.Equal"} {
+		fn := p.Func(root)
+		if fn == nil {
+			r.Bad("-", root+" not found", token.NoPos, "anchor not resolved")
+			continue
+		}
+		for _, f := range unitWithHelpers(p, fn) {
+			if done[f] {
+				continue
+			}
+			done[f] = true
+			name := an.FuncName(f)
+			an.EachInstr(f, func(in ssa.Instruction) {
+				switch x := in.(type) {
+				case *ssa.Convert:
+					if !isSigned(x.X.Type()) || !isUnsigned(x.Type()) {
+						return
+					}
+					if _, isConst := x.X.(*ssa.Const); isConst {
+						return
+					}
+					r.Counts["sign conversions"]++
+					if l, ok := pr.lowerBound(x.X, point{blk: x.Block()}, 0); ok && l >= 0 {
+						r.OK(name, "signed to unsigned under a non-negativity test: "+describe(p, x.X), an.InstrPos(in), "")
+					} else {
+						r.Bad(name, "signed to unsigned without a sign test: "+describe(p, x.X), an.InstrPos(in), fmt.Sprintf("%s converts a signed number to %s where it may be negative: -1 becomes the largest unsigned value and compares above everything", an.FuncName(f), x.Type()))
+					}
+				case *ssa.Call:
+					if an.CallName(&x.Call) != "(reflect.Value).Convert" || len(x.Call.Args) < 2 {
+						return
+					}
+					// the target: a package-level reflect.Type made from a constant of an integer type
+					var tgt types.Type
+					for _, o := range an.Origins(x.Call.Args[1], an.StepValue) {
+						if ld, ok := o.(*ssa.UnOp); ok {
+							if g, ok := ld.X.(*ssa.Global); ok {
+								for _, pf := range p.Funcs {
+									an.EachInstr(pf, func(in2 ssa.Instruction) {
+										if st, ok := in2.(*ssa.Store); ok && st.Addr == ssa.Value(g) {
+											if c := an.CallOf(st.Val); c != nil && an.CallName(c) == "reflect.TypeOf" {
+												if mi, ok := c.Args[0].(*ssa.MakeInterface); ok {
+													tgt = mi.X.Type()
+												}
+											}
+										}
+									})
+								}
+							}
+						}
+						if c := an.CallOf(o); c != nil && an.CallName(c) == "reflect.TypeOf" {
+							if mi, ok := c.Args[0].(*ssa.MakeInterface); ok {
+								tgt = mi.X.Type()
+							}
+						}
+					}
+					if tgt == nil || !isSigned(tgt) && !isUnsigned(tgt) {
+						return
+					}
+					r.Counts["sign conversions"]++
+					r.Bad(name, "operand reflect-converted to "+tgt.String(), an.InstrPos(in), fmt.Sprintf("%s converts an integer operand of unknown signedness to %s: an unsigned value above the signed range becomes negative (and a negative one a huge unsigned value), and the comparison is made on the wrapped number", an.FuncName(f), tgt))
+				}
+			})
+		}
+	}
+	r.Floor("sign conversions", 2)
 }
